@@ -1881,7 +1881,11 @@ def front_cases_with_faults(ctx, rng, n):
             lines.append(header)
             if ci == fault_at and kind in ("unknowntype", "duplicate", "duplicate2", "missingtype", "extratoken", "novar", "illegal"):
                 for _ in range(rng.randint(0, 2)):
-                    meta.append(rng.choice(["", "# c"]))
+                    # blank lines, patch comments, and Go comments (go/scanner reads the section): among them comments
+                    # that look like line directives, which must not move the reported position
+                    meta.append(rng.choice(["", "# c", "// a Go comment", "/* block */", "//line legacy.go:40", "//line legacy.go:40:3",
+                                            "/*line other.patch:7:1*/", "var okq1 expression // trailing", "/* two\nlines */"]))
+                meta = [x for m in meta for x in m.split("\n")]
                 ind = " " * rng.randint(0, 2)
                 if kind == "unknowntype":
                     meta.append(ind + "var zq9 identifer")
